@@ -34,11 +34,17 @@ type vfDir struct {
 	items      map[string]*vfItem
 	log        []vfOp
 	faults     bool
+	// with faultBudgeted at most faultsLeft more operations fail (transient faults)
+	faultBudgeted bool
+	faultsLeft    int
+	faultsHit     int
 	loads      int
 	closes     int
 	freeOnLoad bool // Load returns a copy freed by its closer
 	onRemove   func(kind string, id uint64)
 	onPersist  func(kind string, id uint64)
+	onTorn     func(kind string, id uint64, data []byte)
+	afterOp    func(op, kind string, id uint64)
 	listOrder  []vfOp
 	closers    []*vfCloser
 }
@@ -51,6 +57,17 @@ func vfKey(kind string, id uint64) string { return fmt.Sprintf("%s/%d", kind, id
 
 func (d *vfDir) fault(name string) bool {
 	if !d.faults {
+		return false
+	}
+	if d.faultBudgeted {
+		if d.faultsLeft == 0 {
+			return false
+		}
+		if vfBool(name) {
+			d.faultsLeft--
+			d.faultsHit++
+			return true
+		}
 		return false
 	}
 	return vfBool(name)
@@ -141,8 +158,15 @@ func (d *vfDir) Persist(kind string, id uint64, w WriterTo, closeCh chan struct{
 		d.log = append(d.log, vfOp{"persist", kind, id, false})
 		return err
 	}
+	if d.onTorn != nil {
+		// the item is being written under its final name: a crash now leaves a prefix of it
+		d.onTorn(kind, id, buf.Bytes())
+	}
 	d.put(kind, id, buf.Bytes())
 	d.log = append(d.log, vfOp{"persist", kind, id, true})
+	if d.afterOp != nil {
+		d.afterOp("persist", kind, id)
+	}
 	return nil
 }
 
@@ -164,6 +188,9 @@ func (d *vfDir) Remove(kind string, id uint64) error {
 	}
 	delete(d.items, vfKey(kind, id))
 	d.log = append(d.log, vfOp{"remove", kind, id, true})
+	if d.afterOp != nil {
+		d.afterOp("remove", kind, id)
+	}
 	return nil
 }
 
